@@ -4,6 +4,7 @@ import (
 	"encoding/base64"
 	"encoding/json"
 	"fmt"
+	"github.com/siglens/siglens/pkg/ast/pipesearch"
 
 	esreader "github.com/siglens/siglens/pkg/es/reader"
 	eswriter "github.com/siglens/siglens/pkg/es/writer"
@@ -21,6 +22,7 @@ var handlers = map[string]func(ctx *fasthttp.RequestCtx, org int64){
 	"deleteIndex":   eswriter.ProcessDeleteIndex,
 	"putIndex":      eswriter.ProcessPutIndex,
 	"esSearch":      esreader.ProcessSearchRequest,
+	"listColumns":   pipesearch.ListColumnNamesHandler,
 }
 
 func RegisterHandler(name string, f func(ctx *fasthttp.RequestCtx, org int64)) { handlers[name] = f }
